@@ -47,6 +47,11 @@ class Ctx:
                     return f, out
                 with ThreadPoolExecutor(NCPU) as ex:
                     s._libll = dict(ex.map(one, s.lib_sources()))
+                cm = os.path.join(d, 'vf_cmath.ll')
+                r = subprocess.run(['clang-14', '-w', '-O0', '-Xclang', '-disable-O0-optnone', '-fno-builtin', '-S', '-emit-llvm',
+                                    os.path.join(SUPPORT, 'vf_cmath.c'), '-o', cm], capture_output=True, text=True)
+                if r.returncode != 0: raise RuntimeError('clang vf_cmath: ' + r.stderr[-2000:])
+                s._libll['vf_cmath.c'] = cm
             return s._libll
 
     def asan_lib(s):
@@ -98,7 +103,8 @@ class Ob:
     """one solver obligation = one CBMC run on one harness at one shape"""
     def __init__(s, oid, harness, engine='N', defs=None, unwind=4, unwindset=(), flags=(), nsrcs=(), ovr=(), uf=False,
                  leak=False, timeout=None, functions=(), bounds='', stubs=(), mem_gb=12, nomallocfail=True, what='',
-                 drop_checks=False, extra_ll=(), optional_witnesses=()):
+                 drop_checks=False, extra_ll=(), optional_witnesses=(), exclude=()):
+        s.exclude = list(exclude)
         s.optional_witnesses = list(optional_witnesses)
         s.id = oid; s.harness = harness; s.engine = engine; s.defs = dict(defs or {}); s.unwind = unwind
         s.unwindset = list(unwindset); s.flags = list(flags); s.nsrcs = list(nsrcs); s.ovr = list(ovr); s.uf = uf
@@ -122,7 +128,7 @@ def build_L(ctx, ob, wd):
     r = subprocess.run(['clang-14', '-w', '-O0', '-Xclang', '-disable-O0-optnone', '-S', '-emit-llvm', '-DVF_CBMC', '-DVF_LROUTE'] + CPPFLAGS +
                        ob.defflags() + [h, '-o', hl], capture_output=True, text=True)
     if r.returncode != 0: raise RuntimeError('clang harness: ' + r.stderr[-3000:])
-    inc = set(included_c_files(h))
+    inc = set(included_c_files(h)) | set(ob.exclude)
     libs = [p for f, p in sorted(libll.items()) if f not in inc]
     al = os.path.join(wd, 'all.ll')
     r = subprocess.run(['llvm-link-14', '-S', hl] + libs + ['-o', al], capture_output=True, text=True)
@@ -133,7 +139,7 @@ def build_L(ctx, ob, wd):
     if r.returncode != 0: raise RuntimeError('opt: ' + r.stderr[-3000:])
     gc = os.path.join(wd, 'gen.c')
     cmd = [sys.executable, os.path.join(VERIF, 'vf', 'll2c.py'), ml]
-    if ob.uf: cmd.append('--uf')
+    if ob.uf: cmd.append('--uf' if ob.uf is True or ob.uf == 'all' else '--uf-muldiv')
     if ob.ovr: cmd += ['--ovr', ','.join(ob.ovr)]
     r = subprocess.run(cmd, capture_output=True, text=True)
     if r.returncode != 0: raise RuntimeError('ll2c: ' + r.stderr[-3000:])
